@@ -7,6 +7,7 @@ from typing import IO
 
 from crc32c import crc32c
 
+from kio.serial.readers import read_exact
 from kio.serial.readers import read_int8
 from kio.serial.readers import read_int16
 from kio.serial.readers import read_int32
@@ -28,7 +29,7 @@ def read_signed_compact_string_as_bytes_nullable(buffer: IO[bytes]) -> bytes | N
         return None
     elif length < 0:
         raise ValueError(f"Invalid length for signed compact string: {length}")
-    return buffer.read(length)
+    return read_exact(buffer, length)
 
 
 def read_header(buffer: IO[bytes]) -> RecordHeader:
@@ -44,7 +45,7 @@ def read_record(
     base_offset: i64,
 ) -> Record:
     record_length = read_signed_varint(buffer)
-    with io.BytesIO(buffer.read(record_length)) as record_buffer:
+    with io.BytesIO(read_exact(buffer, record_length)) as record_buffer:
         record = Record(
             attributes=read_int8(record_buffer),
             timestamp=TZAwareMicros.parse(
